@@ -158,8 +158,10 @@ func (m *metaWorld) call(ev map[string]any) (map[string]any, error) {
 	}
 	return nil, fmt.Errorf("unknown call %q", a)
 }
-func (m *metaWorld) variantBytes(v string, pick func(int) int) ([]byte, error) { return m.variant(v, pick) }
-func (m *metaWorld) verifyBytes(data []byte) (map[string]any, error)           { return m.verify(data) }
+func (m *metaWorld) variantBytes(v string, pick func(int) int) ([]byte, error) {
+	return m.variant(v, pick)
+}
+func (m *metaWorld) verifyBytes(data []byte) (map[string]any, error) { return m.verify(data) }
 func (m *metaWorld) importBytes(data []byte, stopAfter int, onFS func(op, name string)) (map[string]any, error) {
 	err := m.runImport(data, stopAfter, onFS)
 	cls := metaErrClass(err)
